@@ -241,6 +241,8 @@ func cmdDocReplay(args []string) {
 		kind := "ws"
 		if plain {
 			kind = "text"
+		} else if strings.IndexFunc(src, func(r rune) bool { return r < 0x20 && r != '\t' && r != '\n' && r != '\r' || r == 0x7f }) >= 0 {
+			kind = "ctl" // control bytes in literal text next to trimming constructs: they are text, not white space
 		}
 		o := renderWithOpts(src, v.Opts.Trim, v.Opts.Lstrip, n%2 == 0)
 		rep.Checked++
